@@ -66,7 +66,7 @@ def _loc_to_str(root_model: Type[BaseModel], loc: Loc) -> str:
     for item in loc:
         if isinstance(item, int):
             loc_elements[-1] = f"{loc_elements[-1]}[{item}]"
-        elif item in model_module.__dict__:
+        elif isinstance(item, str) and item in model_module.__dict__:
             # If the name appears in the same module as the model then it is itself
             # a model. This means that it's inserted because we're somewhere within
             # a discriminated union; pydantic includes the name of the union class
@@ -74,5 +74,5 @@ def _loc_to_str(root_model: Type[BaseModel], loc: Loc) -> str:
             # *only* when traversing through a discriminated union).
             pass
         else:
-            loc_elements.append(item)
+            loc_elements.append(str(item))
     return " -> ".join(loc_elements)
